@@ -47,7 +47,7 @@ Definition okb (sp : spec) (o : op) : bool :=
   match o with
   | AddSd l => nodupb l && forallb (fun x => negb (mem x (pS sp))) l
   | AddIntf i a b =>
-      negb (mem i (map fst (pI sp))) && mem a (pS sp) && mem b (pS sp) && neqb a b
+      negb (mem i (map fst (pI sp))) && mem a (pS sp) && mem b (pS sp)
       && (fst i <=? fst a) && (fst i <=? fst b) && (absdiff (fst a) (fst b) <? 3)
       && negb (joined a b (pI sp))
   | RemoveSd s => mem s (pS sp)
@@ -57,7 +57,8 @@ Definition okb (sp : spec) (o : op) : bool :=
 (* ---- calls the container must reject, with the exception they must raise ---- *)
 Definition rejb (sp : spec) (o : op) : option err :=
   match o with
-  | AddSd l => if existsb (fun x => mem x (pS sp)) l then Some ValueErr else None
+  | AddSd l => if existsb (fun x => mem x (pS sp)) l || negb (dupfree l)
+               then Some ValueErr else None
   | AddIntf i a b => if mem i (map fst (pI sp)) then Some ValueErr
                      else if absdiff (fst a) (fst b) <? 3 then None else Some ValueErr
   | RemoveSd s => if mem s (pS sp) then None else Some KeyErr
